@@ -51,6 +51,13 @@ class G:
             name = r.choice(["x", "y", "a"])
             sc2 = dict(sc)
             sc2["int"] = sc.get("int", []) + ["(%s + 0)" % name]
+            if r.random() < 0.25:
+                # alias chains and scalars bound through another binding / a request object
+                inner = r.choice(["p", "q"])
+                bound = r.choice([self.int_(d - 1, sc), "request.target.port", "request.source.port"])
+                sc3 = dict(sc)
+                sc3["int"] = sc.get("int", []) + ["(%s + 0)" % name, "(%s * 1)" % inner]
+                return "(let %s = %s in let %s = %s in %s)" % (inner, bound, name, inner, self.int_(d - 1, sc3))
             return "(let %s = %s in %s)" % (name, self.int_(d - 1, sc), self.int_(d - 1, sc2))
         return r.choice(["request.target.port", "request.source.port"])
 
@@ -98,6 +105,12 @@ class G:
             return "(if %s then %s else %s)" % (self.bool_(d - 1, sc), self.str_(d - 1, sc), self.str_(d - 1, sc))
         if k < 0.85:
             return "(%s ? %s : %s)" % (self.bool_(d - 1, sc), self.str_(d - 1, sc), self.str_(d - 1, sc))
+        if r.random() < 0.5:
+            v = r.choice(["t", "s"])
+            obj = r.choice(["request.target", "request.source", "request.listener", lit_str("z")])
+            use = r.choice(["strcat([%s])" % v, "to_string(%s)" % v, "(if %s == %s then %s else %s)" % (v, lit_str("a.b:80"), v, lit_str("n")),
+                            "(let u = %s in strcat([u, %s]))" % (v, v)])
+            return "(let %s = %s in %s)" % (v, obj, use)
         return "strcat([request.target, %s, request.source])" % lit_str(":")
 
 
